@@ -64,7 +64,8 @@ def _wraps(pm: Py2CppModel, nm: NodeModel, idx: SourceIndex) -> list[tuple[set[s
 		elif isinstance(expr, ast.Name):
 			# local bound to a tuple of classes
 			for n in walk_no_nested(f.node):
-				if isinstance(n, ast.Assign) and len(n.targets) == 1 and isinstance(n.targets[0], ast.Name) and n.targets[0].id == expr.id:
+				tgt = n.targets[0] if isinstance(n, ast.Assign) and len(n.targets) == 1 else n.target if isinstance(n, ast.AnnAssign) and n.value is not None else None
+				if isinstance(tgt, ast.Name) and tgt.id == expr.id:
 					return classes_of(n.value, f)
 			names.append(expr.id)
 		else:
@@ -81,32 +82,27 @@ def _wraps(pm: Py2CppModel, nm: NodeModel, idx: SourceIndex) -> list[tuple[set[s
 					res.add(c.name)
 		return res
 
+	from vlib.match import X, atoms, concat_parts
+	from vlib.nodemodel import snakelize
 	for name, f in pm.methods.items():
-		pmap = None
-		for n in ast.walk(f.node):
-			if not isinstance(n, ast.IfExp):
+		fx = X(f)
+		node_param = f.params()[1] if len(f.params()) > 1 else 'node'
+		for n in ast.walk(fx):
+			if not isinstance(n, (ast.JoinedStr, ast.BinOp)):
 				continue
-			body = n.body
-			is_paren = isinstance(body, ast.JoinedStr) and len(body.values) == 3 and const_str(body.values[0]) == '(' and const_str(body.values[2]) == ')' and isinstance(body.values[1], ast.FormattedValue)
-			if not is_paren:
+			parts = concat_parts(n)
+			if not (len(parts) == 3 and parts[0] == ('const', '(') and parts[2] == ('const', ')') and parts[1][0] == 'expr'):
 				continue
 			child_classes: set[str] = set()
-			for c in ast.walk(n.test):
-				if isinstance(c, ast.Call) and isinstance(c.func, ast.Name) and c.func.id == 'isinstance' and len(c.args) == 2 and unparse(c.args[0]) != 'node':
-					child_classes |= classes_of(c.args[1], f)
+			parents: set[str] = set()
+			for a, pol in atoms(fx, n):
+				if pol and isinstance(a, ast.Call) and isinstance(a.func, ast.Name) and a.func.id == 'isinstance' and len(a.args) == 2:
+					if unparse(a.args[0]) == node_param:
+						parents |= {snakelize(x) for x in classes_of(a.args[1], f)}
+					else:
+						child_classes |= classes_of(a.args[1], f)
 			if not child_classes:
 				continue
-			parents: set[str] = set()
-			pmap = pmap or parent_map(f.node)
-			cur = n
-			while id(cur) in pmap:
-				par = pmap[id(cur)]
-				if isinstance(par, ast.If) and any(cur is s for s in par.body):
-					for c in ast.walk(par.test):
-						if isinstance(c, ast.Call) and isinstance(c.func, ast.Name) and c.func.id == 'isinstance' and len(c.args) == 2 and unparse(c.args[0]) == 'node':
-							from vlib.nodemodel import snakelize
-							parents |= {snakelize(x) for x in classes_of(c.args[1], f)}
-				cur = par
 			if not parents:
 				parents = {name[3:]} if name.startswith('on_') else pm.classifications_reaching(name)
 			out.append((parents, child_classes, f'{f.qualname}:{n.lineno}'))
@@ -482,8 +478,9 @@ def rule_g(rep, idx, pm) -> None:
 				# skip the receiver-type context table (values are reflections, not binding lists)
 				if all(isinstance(v, (ast.List, ast.Name)) for v in n.values):
 					tables.append((f, n))
-	if len(tables) < 2:
-		r.undecided('tables', (PY2CPP, 1), f'expected the dict-view binding table in proc_for_dict and on_comp_for, found {len(tables)}')
+	if not tables:
+		r.skip('tables', (PY2CPP, 1), 'no dict-view binding table ({items, keys, values} -> binding list) found in Py2Cpp')
+		r.floor = 1
 		return
 	for f, n in tables:
 		rows = {unparse(k).split('.')[1]: v for k, v in zip(n.keys, n.values)}
